@@ -316,6 +316,16 @@ of_status_t	of_2d_parity_build_repair_symbol (of_2d_parity_cb_t*		ofcb,
 		goto error;
 	}
 	parity_symbol = encoding_symbols_tab[esi_of_symbol_to_build];
+	if (parity_symbol == NULL)
+	{
+		/* as documented, a NULL entry means the library allocates the buffer of the repair symbol */
+		if ((parity_symbol = of_calloc (1, ofcb->encoding_symbol_length)) == NULL)
+		{
+			OF_PRINT_ERROR(("%s: Error, no memory\n", __FUNCTION__))
+			goto error;
+		}
+		encoding_symbols_tab[esi_of_symbol_to_build] = parity_symbol;
+	}
 	memset (parity_symbol, 0, ofcb->encoding_symbol_length);
 	col_to_build = of_get_symbol_col ((of_cb_t*)ofcb, esi_of_symbol_to_build);
 	e = of_mod2sparse_first_in_row (ofcb->pchk_matrix, col_to_build);
